@@ -274,6 +274,10 @@ func (fv floatValue) String() string {
 
 func (fv floatValue) ToKey(b *bytes.Buffer) {
 	n := math.Float64bits(float64(fv))
+	if fv == 0 {
+		// -0.0 is equal to 0.0
+		n = 0
+	}
 	b.WriteByte(1)
 	b.WriteByte(HkFloat)
 	b.WriteByte(byte(n >> 56))
